@@ -170,6 +170,13 @@ def strat_large(draw, tier):
     kind = draw(st.sampled_from(["z-near-power", "z-free", "x-free", "x-edge"]))
     if dim >= 4:
         kind = draw(st.sampled_from(["z-near-power", "z-free"]))
+    if name == "hyperbolic" and draw(st.integers(0, 3)) == 0:
+        # shells whose number (x+1)(y+1) is a product of two primes above 2^15 (beyond the trial-division bound of the
+        # factorisation the pairing relies on); the divisor sum costs sqrt(n) ~ 4e4 operations there
+        ps = [32771, 32779, 32783, 32789, 32797, 32801, 32803, 32831, 32833, 32839, 32843, 32869, 32983, 34499, 65537]
+        case = {"pairing": name, "dim": 2, "kind": "x-primes",
+                "x": [draw(st.sampled_from(ps)) - 1, draw(st.sampled_from(ps)) - 1]}
+        return case
     case = {"pairing": name, "dim": dim, "kind": kind}
     # coordinates in N are images of signed coordinates through mapping_to_z: up to 2*MAXC
     cmax = 2 * MAXC
@@ -252,7 +259,7 @@ def classify_large(case):
     big = (case.get("z", 0) > 2**53) or any(c > 2**26 for c in case.get("x", []))
     if big:
         labels.append("beyond-float-precision")
-    nt = case["kind"] in ("z-near-power", "x-edge") or big
+    nt = case["kind"] in ("z-near-power", "x-edge", "x-primes") or big
     return labels, nt
 
 
@@ -462,7 +469,7 @@ def strat_an(draw, tier):
     if kind == "large-n":
         base = draw(st.sampled_from(["free", "square"]))
         if base == "square":
-            m = draw(st.integers(1, 10**5))
+            m = draw(st.one_of(st.integers(1, 10**5), st.integers(5 * 10**5, 3 * 10**6)))
             n = m * m + draw(st.integers(-2, 2))
         else:
             n = draw(st.integers(1, 10**10))
@@ -492,6 +499,34 @@ def body_an(case):
             out.append(Violation("C14/a_n/upper-bound-not-inverse",
                                  f"z={z} n={n} a(n-1)={lo} a(n)={_a_int(n)}"))
     return out
+
+
+def enum_an_huge(tier):
+    # shells next to perfect squares beyond the precision of a float square root (coordinates of a 2-d grid with
+    # more than 6.7e7 points per axis; the grids accept 1e8): n = m^2 - 1, m^2, m^2 + 1
+    ms = [67108865] if tier == "quick" else [67108865, 80000003, 94906266, 100000000]
+    return [{"m": m, "delta": dl} for m in ms for dl in ((-1,) if tier == "quick" else (-1, 0, 1))]
+
+
+def body_an_huge(case):
+    from rpylib.numerical.numbers import a_n
+
+    n = case["m"] ** 2 + case["delta"]
+    r = math.isqrt(n)
+    tot = 0
+    for lo in range(1, r + 1, 5_000_000):  # exact integer arithmetic (n // k < 2^63, partial sums as python ints)
+        k = np.arange(lo, min(r, lo + 4_999_999) + 1, dtype=np.int64)
+        tot += int((n // k).sum())
+    ref = 2 * tot - r * r
+    got = a_n(n)
+    if got != ref:
+        return [Violation("C14/a_n/differs-from-integer-formula/beyond-float-precision",
+                          f"n = {case['m']}^2 + ({case['delta']}): a_n = {got}, hyperbola formula with the integer square root = {ref}")]
+    return []
+
+
+def classify_an_huge(case):
+    return [f"delta={case['delta']}"], True
 
 
 def classify_an(case):
@@ -628,6 +663,10 @@ SUBCHECKS = [
              rule="a_n vs naive divisor sum on blocks of 100 below 5000, vs integer-only formula for n<=1e10 "
                   "(incl. m^2+-2), upper_bound_a_n(z) bracket a(n-1)<=z<a(n) for z<2^40",
              strategy=strat_an, budget={"quick": 1800, "thorough": 10000}),
+    SubCheck("divisor-sum-beyond-float-precision", body_an_huge, classify_an_huge,
+             rule="a_n at n = m^2 - 1 (thorough: m^2, m^2 + 1 too) for m beyond 2^26 (the first index of the hyperbolic "
+                  "pairing's shells there): against the Dirichlet hyperbola formula in exact integer arithmetic",
+             enumerate=enum_an_huge, shards={"quick": 1, "thorough": 12}, exhaustive=False),
     SubCheck("states-manager", body_states, classify_states,
              rule="StatesManager over real CTMC grids (fixed-size uniform, geometric with bounds, asymmetric "
                   "shared/per-axis axes; d=1..3; 0-1 refinements): indices 0,1,2,.. until the exhaustion flag "
